@@ -240,12 +240,13 @@ func findDriver() (string, error) {
 
 // leanEncode asks `nridrv C12` for the bytes of the Lean encoder (and of the variants the
 // decoders must accept) for every case. One process, one request line per case.
-func leanEncode(scratch string, ins []*caseIn) ([][]variant, []string, error) {
+func leanEncode(scratch, reqName string, ins []*caseIn) ([][]variant, []string, error) {
 	drv, err := findDriver()
 	if err != nil {
 		return nil, nil, err
 	}
-	reqPath := filepath.Join(scratch, "lean-req.jsonl")
+	reqPath := filepath.Join(scratch, reqName)
+	defer os.Remove(reqPath)
 	f, err := os.Create(reqPath)
 	if err != nil {
 		return nil, nil, err
